@@ -86,7 +86,8 @@ class GeneralThermodynamics:
 
         if type(phases) == str:  # check if a single phase was passed as a string instead of a list of phases.
             phases = [phases]
-        self.phases = phases
+        #Copy, since the first phase is renamed if it has to be disordered (the caller's list must not change)
+        self.phases = list(phases)
         self.vacancyPoorInterstitialSublattice = {}
 
         self._buildThermoModels()
